@@ -80,10 +80,18 @@ def check(out, ctx):
     cases = [c for c in st["cases"] if c.g.meta["leftrec"]]
     bad = common.correspondence(out, st, cases)
     ref_checked = 0
+    outside = 0
     for c in cases:
         key = "%s:%s:%s" % (c.g.gid, c.rule, c.inp.encode().hex())
         if c.impl["k"] in ("TIMEOUT", "CRASH"):
-            out.violation("c07term:" + key, "parse with a @leftrec rule did not terminate / crashed on %r" % c.inp, common.case_payload(c, st))
+            # a violation for the grammars of the quantifier: those whose computed certificate passes
+            # LRTerm.wf_check_lr (theorem C07_terminates).  Other grammars (e.g. a closure over a @leftrec rule whose
+            # base alternative can match nothing) loop by the documented non-termination of PEG closures.
+            if getattr(c.g, "wf_lr", None) is True:
+                out.violation("c07term:" + key, "the grammar passes the well-formedness check (left recursion through @leftrec rules only), the parse did not terminate / crashed on %r" % c.inp,
+                              common.case_payload(c, st))
+            else:
+                outside += 1
             continue
         # the growth procedure of the property text is the model's grow loop (C07_grow): a different tree or
         # a different acceptance is a violation with this input as the replay
@@ -137,4 +145,7 @@ def check(out, ctx):
                            "cases of grammars with @leftrec rules (plain, two operators, base alternative first, indirect through a non-memoized rule, @position); non-trivial = the growth loop ran at least 3 turns; distinct by (grammar, rule, input)",
                            lambda c: c.impl.get("trace", "").count("I:2") >= 3,
                            {"left_nesting_checked": ref_checked, "model_vs_implementation_disagreements": bad,
+                            "leftrec_grammars_certified_by_wf_check_lr": sum(1 for g in st["grammars"] if g.meta["leftrec"] and getattr(g, "wf_lr", None) is True),
+                            "leftrec_grammars": sum(1 for g in st["grammars"] if g.meta["leftrec"]),
+                            "hanging_cases_of_grammars_outside_the_quantifier": outside,
                             "max_loop_turns_seen": max([c.impl.get("trace", "").count("I:2") for c in cases] or [0])})
